@@ -144,7 +144,11 @@ func gennaroRunner[E algebra.PrimeGroupElement[E, S], S algebra.PrimeFieldElemen
 		if ctxs[id] == nil {
 			return nil, fmt.Errorf("no session context")
 		}
-		return rgen.NewRunner(ctxs[id], cfg.Group, cfg.AC, cfg.Compiler, prng)
+		ac := cfg.AC
+		if a, ok := cfg.ACs[id]; ok && a != nil {
+			ac = a
+		}
+		return rgen.NewRunner(ctxs[id], cfg.Group, ac, cfg.Compiler, prng)
 	})
 	for id, sh := range shards {
 		tr.Outputs[id] = dgen.ShardText(sh)
@@ -160,7 +164,11 @@ func canettiRunner[E algebra.PrimeGroupElement[E, S], S algebra.PrimeFieldElemen
 		if ctxs[id] == nil {
 			return nil, fmt.Errorf("no session context")
 		}
-		return rcan.NewRunner(ctxs[id], cfg.AC, cfg.Group, prng)
+		ac := cfg.AC
+		if a, ok := cfg.ACs[id]; ok && a != nil {
+			ac = a
+		}
+		return rcan.NewRunner(ctxs[id], ac, cfg.Group, prng)
 	})
 	for id, sh := range shards {
 		tr.Outputs[id] = dgen.ShardText(sh)
